@@ -55,6 +55,15 @@ Fixpoint index_of (k : akey) (l : list akey) (i : nat) : option nat :=
   end.
 
 (* «field in ("a", "b", 1)» / «field contains-all (...)»: the elements are quoted literals or numbers *)
+Definition in_after (rec : str -> option (list akey)) (k : akey) (r : str) : option (list akey) :=
+  match r with
+  | [d] => if N.eqb d c_rpar then Some [k] else None
+  | d :: e :: r' =>
+      if N.eqb d c_comma && N.eqb e c_space then
+        match rec r' with Some l => Some (k :: l) | None => None end
+      else None
+  | [] => None
+  end.
 Fixpoint in_elems (fuel : nat) (f : str) (x : str) : option (list akey) :=
   match fuel with
   | O => None
@@ -62,27 +71,18 @@ Fixpoint in_elems (fuel : nat) (f : str) (x : str) : option (list akey) :=
       match x with
       | [] => None
       | c :: x' =>
-          let after (k : akey) (r : str) : option (list akey) :=
-            match r with
-            | [d] => if N.eqb d c_rpar then Some [k] else None
-            | d :: e :: r' =>
-                if N.eqb d c_comma && N.eqb e c_space then
-                  match in_elems n f r' with Some l => Some (k :: l) | None => None end
-                else None
-            | [] => None
-            end in
           if N.eqb c c_dq then
             match scan_to c_dq x' with
             | Some (body, r) =>
                 match str_read (c :: body) with
-                | Some l => after (YMatch false f (norm l)) r
+                | Some l => in_after (in_elems n f) (YMatch false f (norm l)) r
                 | None => None
                 end
             | None => None
             end
           else
             let '(w, r) := span (fun d => negb (N.eqb d c_comma || N.eqb d c_rpar)) x in
-            match w with [] => None | _ => after (YTok f w) r end
+            match w with [] => None | _ => in_after (in_elems n f) (YTok f w) r end
       end
   end.
 Definition in_decode (W : char -> bool) (t : str) : option (bool * list akey) :=
@@ -139,4 +139,19 @@ Definition read_query (W : char -> bool) (keys : list akey) (q : str) : option (
   match lex q with
   | Some ls => all_some (map (tok_of W keys) ls)
   | None => None
+  end.
+
+(* a number inside a value list: not empty, no list punctuation, does not look like a literal *)
+Definition inlist_num (x : str) : bool :=
+  match x with
+  | [] => false
+  | c :: _ => negb (N.eqb c c_dq) && forallb (fun d => negb (N.eqb d c_comma || N.eqb d c_rpar)) x
+  end.
+
+(* the key a list element must have *)
+Definition key_of_val (f : str) (v : lval) : option akey :=
+  match v with
+  | LStr false sv => Some (YMatch false f (norm (items sv)))
+  | LNum txt => Some (YTok f txt)
+  | _ => None
   end.
